@@ -23,6 +23,18 @@ CALLS = ["(append A B)", "(append A B A)", "(append A nil)", "(append nil A)", "
          "`(,A)", "(list A B)", "(cons A B)", "(cdr A)", "(car A)", "(cddr A)", "(equal A B)", "(format \"%s %S\" A B)", "(macroexpand A)",
          "(eval (list 'quote A))", "(funcall 'append A B)", "(append (cdr A) B)", "(nthcdr 1 (append A B))", "(sort (append A B) '<)"]
 
+MACRO_FORMS = ["(->> 5 (- 10))", "(-> 5 (- 10) (list 1))", "(->> 5 (- 10) (list 1) list)", "(thread-last 5 (- 10))", "(thread-first 5 (- 10))", "(when v (list v))",
+               "(unless v 1 2)", "(if-let ((a v) (b 2)) (list a b) 'no)", "(when-let ((a v)) a)", "(if-let* ((a 1)) a)", "(while-let ((a nil)) a)",
+               "(um (1 2) v)", "(->> v (um (1)))", "(quote (->> 5 (- 10)))"]
+def macro_cases():
+    out = []
+    for f in MACRO_FORMS:
+        pre = "EVAL (setq v 3) (defmacro um (l x) (list 'append (list 'quote l) (list 'list x)))"
+        out.append(["NEW", pre, "EVAL (setq form '%s)" % f, "EVAL (macroexpand form)", "EVAL form", "EVAL (macroexpand form)", "EVAL form",
+                    "EVAL (eval form)", "EVAL (eval form)", "EVAL form", "EVAL (defun mf () (macroexpand '%s))" % f, "EVAL (mf)", "EVAL (mf)", "EVAL (mf)",
+                    "EVAL (defun ef () (eval '%s))" % f, "EVAL (ef)", "EVAL (ef)", "EVAL (equal (mf) (macroexpand '%s))" % f])
+    return out
+
 def generate(tier, seed):
     rng = C.rng_for(seed, "C11")
     lines = []
@@ -55,6 +67,8 @@ def generate(tier, seed):
         p = g.program(1)
         if "setq" in p or "(set " in p: continue
         lines += ["NEW", "EVAL (setq a '(1 2)) (setq b 5) (setq c '((k . v)))", "EVAL " + p, "EVAL " + p, "EVAL " + p, "DUMP a b c"]
+    for c in macro_cases():
+        lines += c
     return {"lines": lines, "nontrivial": len(nt), "distribution": {"library_cases": len(combos)}}
 
 def oracle(lines, impl, model, meta):
@@ -71,6 +85,10 @@ def oracle(lines, impl, model, meta):
             res = A[2:5]
             if len(set(res)) != 1:
                 bad.append(("function with quoted literals returns different results on repeated calls", L, 3, str(res), None))
+        elif len(L) == 18 and L[2].startswith("EVAL (setq form '"):
+            # repeated expansions / evaluations of one held form agree, and the form reads the same afterwards
+            if A[3] != A[5] or A[4] != A[6] or A[6] != A[9] or A[7] != A[8] or len({A[11], A[12], A[13]}) != 1 or A[15] != A[16]:
+                bad.append(("a held macro form changed under repeated expansion / evaluation", L, 5, str([A[3], A[5], A[4], A[9], A[7], A[8], A[11], A[13], A[15], A[16]]), None))
         elif len(L) == 6 and L[1].startswith("EVAL (setq a '(1 2))"):
             res = A[2:5]
             if len(set(res)) != 1 and "gensym" not in L[2]:
